@@ -107,8 +107,13 @@ func ScopeMiddleware(provider godi.Provider, opts ...Option) fiber.Handler {
 		// Run middlewares
 		for _, mw := range cfg.Middlewares {
 			if err := mw(scope, c); err != nil {
-				scope.Close()
-				return cfg.ErrorHandler(c, err)
+				// The scope lives until the request ends: the error handler
+				// still sees it open, as in the other integrations
+				handlerErr := cfg.ErrorHandler(c, err)
+				if closeErr := scope.Close(); closeErr != nil {
+					cfg.CloseErrorHandler(closeErr)
+				}
+				return handlerErr
 			}
 		}
 
